@@ -67,7 +67,17 @@ func pktArg(b []byte) string {
 	if len(b) == 0 {
 		return "- ;"
 	}
-	return "hex " + hex.EncodeToString(b) + " ;"
+	// several short hex atoms: the Coq-side tokenizer is quadratic in the length of one token
+	var sb strings.Builder
+	for i := 0; i < len(b); i += 256 {
+		j := i + 256
+		if j > len(b) {
+			j = len(b)
+		}
+		sb.WriteString("hex " + hex.EncodeToString(b[i:j]) + " ")
+	}
+	sb.WriteString(";")
+	return sb.String()
 }
 
 func showField(ie *entities.InfoElement) string {
